@@ -12,7 +12,11 @@ void* __builtin_assume_aligned(const void* p, size_t a, ...) { return (void*)p; 
 #include "seq_atomics.h"
 #include "segment.c"
 
+#if defined(HARNESS_h_span_alloc) || defined(HARNESS_h_span_free) || defined(HARNESS_h_page_free_full) || defined(HARNESS_h_seg_reclaim_full)
+struct segobj { mi_segment_t seg; };   /* header only: the span lemmas never touch the data area (addresses are only compared) */
+#else
 struct segobj { mi_segment_t seg; uint8_t rest[MI_SEGMENT_SIZE - sizeof(mi_segment_t)]; };
+#endif
 static struct segobj S;
 static long opt_delay, opt_extend;
 long mi_option_get(mi_option_t o) { if (o == mi_option_purge_delay) return opt_delay; if (o == mi_option_purge_extend_delay) return opt_extend; return nd_long(); }
@@ -234,25 +238,262 @@ void h_segment_alloc_commit(void) {
 }
 #endif
 
-#ifdef HARNESS_h_segment_reclaim
+#if defined(HARNESS_h_span_alloc) || defined(HARNESS_h_span_free) || defined(HARNESS_h_page_free_full) || defined(HARNESS_h_seg_reclaim_full)
+/* C01 item 5 / C07: span allocation, split, coalescing on a concrete slice layout (positions concrete, page contents, commit
+   state, option values and OS answers symbolic).  Layout of the 8-slice segment:
+       [0] info   [1..2] used page A   [3..6] free span F (in its span queue)   [7] used page B
+   _mi_ptr_segment is replaced by a stub returning the harness segment (its arithmetic is C16.ptr_segment); the slice array is
+   made field sensitive (--max-field-sensitivity-array-size) so that concrete positions stay concrete. */
+static mi_segments_tld_t STLD; static mi_stats_t SSTATS;
+mi_segment_t* stub_ptr_segment2(const void* p) { return (p == NULL ? NULL : &S.seg); }
+bool _mi_arena_memid_is_suitable(mi_memid_t memid, mi_arena_id_t req) { return true; }
+static mi_page_t SNAPA, SNAPB;
+static void make_layout(bool f_committed) {
+  mi_segment_t* seg = &S.seg;
+  seg->slice_entries = 8; seg->segment_slices = 8; seg->segment_info_slices = 1; seg->kind = MI_SEGMENT_NORMAL; seg->thread_id = 0x77;
+  seg->allow_decommit = true; seg->allow_purge = true; seg->used = 2; seg->abandoned = 0; seg->memid = _mi_memid_create(MI_MEM_OS);
+  for (size_t i = 0; i <= MI_SEGMENT_BIN_MAX; i++) { STLD.spans[i].first = STLD.spans[i].last = NULL; STLD.spans[i].slice_count = MI_SLICES_PER_SEGMENT; /* only read by debug assertions */ }
+  STLD.stats = &SSTATS;
+  mi_slice_t* sl = seg->slices;
+  sl[0].slice_count = 1; sl[0].slice_offset = 0; sl[0].block_size = 1;
+  sl[1].slice_count = 2; sl[1].slice_offset = 0; sl[1].block_size = 2 * MI_SEGMENT_SLICE_SIZE; sl[2].slice_count = 0; sl[2].slice_offset = sizeof(mi_slice_t); sl[2].block_size = 1;
+  sl[7].slice_count = 1; sl[7].slice_offset = 0; sl[7].block_size = MI_SEGMENT_SLICE_SIZE;
+  sl[1].used = 1 + nd_u8() % 3; sl[7].used = 1 + nd_u8() % 3; sl[1].capacity = sl[7].capacity = 4; sl[1].flags.full_aligned = nd_u8() & 3; sl[7].flags.full_aligned = nd_u8() & 3;
+  /* free span F = [3..6] */
+  sl[3].slice_count = 4; sl[3].slice_offset = 0; sl[3].block_size = 0; sl[3].prev = NULL; sl[3].next = NULL;
+  sl[4].slice_count = 0; sl[5].slice_count = 0; sl[4].block_size = 0; sl[5].block_size = 0;
+  sl[6].slice_count = 0; sl[6].slice_offset = 3 * sizeof(mi_slice_t); sl[6].block_size = 0;
+  mi_span_queue_t* sq = mi_span_queue_for(4, &STLD); sq->first = sq->last = &sl[3];
+  /* commit state: info, A and B committed; F committed or not */
+  mi_commit_mask_create_empty(&seg->commit_mask); mi_commit_mask_create_empty(&seg->purge_mask);
+  seg->commit_mask.mask[0] = 0x87 | (f_committed ? 0x78 : 0);
+  os_committed = seg->commit_mask; mi_commit_mask_create_empty(&purged);
+  SNAPA = sl[1]; SNAPB = sl[7];
+}
+static bool page_same(const mi_page_t* a, const mi_page_t* b) { return a->slice_count == b->slice_count && a->slice_offset == b->slice_offset && a->block_size == b->block_size && a->used == b->used && a->capacity == b->capacity && a->flags.full_aligned == b->flags.full_aligned; }
+static size_t queue_len(mi_span_queue_t* sq, mi_slice_t** only) { size_t n = 0; mi_slice_t* prev = NULL; for (mi_slice_t* x = sq->first; x != NULL && n < 4; x = x->next) { CHECK(x->prev == prev, "span queue prev links"); prev = x; if (only) *only = x; n++; } CHECK(sq->last == prev, "span queue last pointer"); return n; }
+static size_t total_queued(void) { size_t n = 0; for (size_t i = 0; i <= MI_SEGMENT_BIN_MAX; i++) n += queue_len(&STLD.spans[i], NULL); return n; }
+#endif
+
+#ifdef HARNESS_h_span_alloc
+void h_span_alloc(void) {
+  bool fc = nd_bool();
+  make_layout(fc);
+  mi_segment_t* seg = &S.seg; mi_slice_t* sl = seg->slices;
+  opt_delay = nd_long(); ASSUME(opt_delay >= -1 && opt_delay <= 100); opt_extend = 1;
+  const size_t want = WANT;          /* positions concrete (driver enumerates 1..4) */
+  mi_page_t* pg = mi_segments_page_find_and_allocate(want, 0, &STLD);
+  CHECK(page_same(&sl[1], &SNAPA) && page_same(&sl[7], &SNAPB), "C01: pages in use are never touched by allocating or restoring a neighbouring span");
+  CHECK(mask_subset(&seg->commit_mask, &os_committed), "C07: commit mask truthful");
+  if (pg != NULL) {
+    CHECK(pg == (mi_page_t*)&sl[3], "C01: the page is carved from the free span (disjoint from the used spans)");
+    CHECK(pg->slice_count == want && pg->slice_offset == 0 && pg->block_size == want * MI_SEGMENT_SLICE_SIZE, "page span has exactly the requested slices");
+    for (size_t i = 1; i < want; i++) CHECK(sl[3 + i].slice_offset == i * sizeof(mi_slice_t) && sl[3 + i].block_size == 1, "interior slices point back to the page start");
+    CHECK(seg->used == 3, "used count incremented");
+    mi_commit_mask_t need; mi_commit_mask_create(3, want, &need);
+    CHECK(mask_subset(&need, &seg->commit_mask), "C13/C07: a span becomes a page only when it is fully committed");
+    if (want < 4) {
+      mi_slice_t* rest = NULL; mi_span_queue_t* rq = mi_span_queue_for(4 - want, &STLD);
+      CHECK(queue_len(rq, &rest) == 1 && rest == &sl[3 + want] && rest->slice_count == 4 - want && rest->block_size == 0, "C01: the left-over part stays a free span in the queue of its size");
+      CHECK(sl[6].slice_offset == (3 - want) * sizeof(mi_slice_t) || 4 - want == 1, "the left-over span's last slice points back to its start");
+    }
+    CHECK(total_queued() == (want < 4 ? 1 : 0), "no other queue entry appears or disappears");
+    WITNESS("allocated");
+  } else {
+    CHECK(commit_refused, "C07: failure only when the OS refused the commit");
+    CHECK(seg->used == 2, "C07: used count unchanged");
+    mi_slice_t* f = NULL; mi_span_queue_t* sq = mi_span_queue_for(4, &STLD);
+    CHECK(queue_len(sq, &f) == 1 && f == &sl[3], "C07: after a refused commit the free span is back in the queue of its (full) size");
+    CHECK(sl[3].slice_count == 4 && sl[3].block_size == 0 && sl[3].slice_offset == 0 && sl[6].slice_offset == 3 * sizeof(mi_slice_t) && sl[6].block_size == 0, "C07: ... and coalesced to its former extent");
+    CHECK(total_queued() == 1, "C07: exactly one free span is queued (nothing mis-queued, nothing lost)");
+    WITNESS("commit refused");
+  }
+}
+#endif
+
+#if defined(HARNESS_h_span_free) || defined(HARNESS_h_page_free_full) || defined(HARNESS_h_seg_reclaim_full)
+/* exact byte-wise memset (CBMC's built-in memset rewrites the whole enclosing object, which defeats field sensitivity) */
+static size_t reset_lo, reset_hi;
+bool _mi_os_reset(void* addr, size_t size) { size_t o = (size_t)((uint8_t*)addr - (uint8_t*)&S); CHECK(o >= reset_lo && o + size <= reset_hi, "C13: a page reset stays inside the data area of the page being freed"); return true; }
+/* The only _mi_memzero reached by these lemmas is the one in mi_segment_page_clear (page fields from `capacity` on).  Fields of the
+   page that hold addresses are first zeroed by a typed store when they lie completely inside the range (same effect as the byte
+   loop that follows, which still writes every byte): this keeps the struct free of address-valued members that CBMC's
+   simplifier cannot fold through the byte updates. */
+#define PREZERO(p, f) if ((uint8_t*)&(p)->f >= d && (uint8_t*)(&(p)->f + 1) <= d + n) { (p)->f = 0; }
+void stub_memzero_bytes(void* dst, size_t n) {
+  uint8_t* d = (uint8_t*)dst;
+  if (n == sizeof(mi_page_t) - offsetof(mi_page_t, capacity)) {
+    mi_page_t* pg = (mi_page_t*)(d - offsetof(mi_page_t, capacity));
+    PREZERO(pg, free); PREZERO(pg, local_free); PREZERO(pg, page_start); PREZERO(pg, xthread_free); PREZERO(pg, xheap); PREZERO(pg, next); PREZERO(pg, prev);
+  }
+  for (size_t i = 0; i < n; i++) d[i] = 0;
+}
+#endif
+#ifdef HARNESS_h_span_free
+/* freeing page A (or B) merges with the free neighbour F and touches no other used page */
+void h_span_free(void) {
+  make_layout(true);
+  mi_segment_t* seg = &S.seg; mi_slice_t* sl = seg->slices;
+  opt_delay = -1; opt_extend = 1;          /* purge scheduling is decided separately */
+  const bool freeA = FREEA;          /* concrete (driver enumerates) */
+  mi_page_t* victim = (mi_page_t*)(freeA ? &sl[1] : &sl[7]);
+  victim->used = 0; victim->is_committed = 1;
+  reset_lo = (freeA ? 1 : 7) * MI_SEGMENT_SLICE_SIZE; reset_hi = (freeA ? 3 : 8) * MI_SEGMENT_SLICE_SIZE;
+  mi_slice_t* r = mi_segment_page_clear(victim, &STLD);
+  CHECK(seg->used == 1, "used count decremented");
+  if (freeA) {
+    CHECK(page_same(&sl[7], &SNAPB), "C01: the other used page is untouched");
+    CHECK(r == &sl[1] && sl[1].slice_count == 6 && sl[1].block_size == 0 && sl[1].slice_offset == 0, "C01: the freed span merges with its free right neighbour");
+    CHECK(sl[6].slice_offset == 5 * sizeof(mi_slice_t), "last slice of the merged span points back to its start");
+    mi_slice_t* q = NULL; CHECK(queue_len(mi_span_queue_for(6, &STLD), &q) == 1 && q == &sl[1], "merged span queued by its new size");
+  } else {
+    CHECK(page_same(&sl[1], &SNAPA), "C01: the other used page is untouched");
+    CHECK(r == &sl[3] && sl[3].slice_count == 5 && sl[3].block_size == 0, "C01: the freed span merges with its free left neighbour");
+    CHECK(sl[7].slice_offset == 4 * sizeof(mi_slice_t) && sl[7].block_size == 0, "last slice of the merged span points back to its start");
+    mi_slice_t* q = NULL; CHECK(queue_len(mi_span_queue_for(5, &STLD), &q) == 1 && q == &sl[3], "merged span queued by its new size");
+  }
+  CHECK(total_queued() == 1, "exactly one free span remains queued");
+  WITNESS("end");
+}
+#endif
+
+#if defined(HARNESS_h_page_free_full) || defined(HARNESS_h_seg_reclaim_full)
+static int n_mark_abandoned, n_arena_free, n_map_freed; static size_t af_size, af_csize;
+void _mi_arena_segment_mark_abandoned(mi_segment_t* segment) { CHECK(segment == &S.seg && segment->thread_id == 0, "C09: a segment is published as abandoned only after its owner id was cleared"); CHECK(total_queued() == 0, "C09/C01: no span queue of the abandoning thread still refers to the published segment"); n_mark_abandoned++; }
+void _mi_segment_map_freed_at(const mi_segment_t* segment) { n_map_freed++; }
+void _mi_arena_free(void* p, size_t size, size_t committed, mi_memid_t memid) { CHECK(p == (void*)&S.seg, "the segment itself is released"); CHECK(total_queued() == 0, "C01: no span queue still refers to a released segment"); af_size = size; af_csize = committed; n_arena_free++; }
+bool _mi_os_unprotect(void* addr, size_t size) { return true; }
+#endif
+
+#ifdef HARNESS_h_page_free_full
+/* C01/C09/C11/C13: _mi_segment_page_free on the concrete layout; the victim (FREEA) is concrete, the other page is owned,
+   abandoned or (ONLY=1) absent, options / clock / OS answers symbolic.  Real: page_clear, span_free_coalesce, schedule_purge,
+   try_purge, segment_abandon, segment_free, segment_os_free. */
+void h_page_free_full(void) {
+  make_layout(true);
+  mi_segment_t* seg = &S.seg; mi_slice_t* sl = seg->slices;
+  opt_delay = nd_long(); ASSUME(opt_delay >= -1 && opt_delay <= 100); opt_extend = 1;
+  const bool freeA = FREEA;
+  mi_page_t* victim = (mi_page_t*)(freeA ? &sl[1] : &sl[7]);
+  mi_page_t* other  = (mi_page_t*)(freeA ? &sl[7] : &sl[1]);
+#if ONLY
+  /* the other page is not in use: it is a free span in its queue (not adjacent to F on purpose when it is A: [1..2] and [3..6] stay separate spans only if
+     never coalesced -- so build the coalesced form instead) */
+  if (freeA) { sl[3].slice_count = 5; sl[7].slice_count = 0; sl[7].block_size = 0; sl[7].slice_offset = 4 * sizeof(mi_slice_t); sl[6].slice_offset = 0;
+               mi_span_queue_for(4, &STLD)->first = mi_span_queue_for(4, &STLD)->last = NULL; mi_span_queue_for(5, &STLD)->first = mi_span_queue_for(5, &STLD)->last = &sl[3]; }
+  else       { sl[1].slice_count = 6; sl[1].block_size = 0; sl[2].slice_offset = 0; sl[2].block_size = 0; sl[3].slice_count = 0; sl[6].slice_offset = 5 * sizeof(mi_slice_t);
+               mi_span_queue_for(4, &STLD)->first = mi_span_queue_for(4, &STLD)->last = NULL; mi_span_queue_for(6, &STLD)->first = mi_span_queue_for(6, &STLD)->last = &sl[1]; sl[1].prev = sl[1].next = NULL; }
+  seg->used = 1; seg->abandoned = 0;
+#else
+  const bool other_abandoned = ABND;      /* concrete (driver enumerates) */
+  seg->abandoned = other_abandoned ? 1 : 0;
+#endif
+  seg->was_reclaimed = nd_bool(); STLD.reclaim_count = seg->was_reclaimed ? 1 : 0; STLD.count = 1; STLD.current_size = 8 * MI_SEGMENT_SLICE_SIZE; STLD.peak_size = STLD.current_size;
+  seg->memid.memkind = nd_bool() ? MI_MEM_ARENA : MI_MEM_OS;
+  victim->used = 0; victim->is_committed = 1;
+  reset_lo = (freeA ? 1 : 7) * MI_SEGMENT_SLICE_SIZE; reset_hi = (freeA ? 3 : 8) * MI_SEGMENT_SLICE_SIZE;
+  const size_t used_blocks = (ONLY ? 0x01 : (freeA ? 0x81 : 0x07));    /* commit blocks (= slices) of the info slice and of the page still in use */
+  _mi_segment_page_free(victim, nd_bool(), &STLD);
+  CHECK((purged.mask[0] & used_blocks) == 0, "C13: purging after a page free never touches the info slice or a page still in use");
+  CHECK((seg->purge_mask.mask[0] & used_blocks) == 0, "C13: nothing in use is scheduled for purging");
+  CHECK(mask_subset(&seg->commit_mask, &os_committed), "C13: the commit mask never claims memory the OS has decommitted");
+  for (int i = 1; i < MI_COMMIT_MASK_FIELD_COUNT; i++) CHECK(purged.mask[i] == 0 && seg->purge_mask.mask[i] == 0, "purge stays inside the segment's slices");
+#if ONLY
+  CHECK(n_arena_free == 1 && n_mark_abandoned == 0, "C11: a segment whose last page was freed is released exactly once");
+  CHECK(af_size == 8 * MI_SEGMENT_SLICE_SIZE && af_csize <= af_size, "C11: released with its own size");
+  CHECK(total_queued() == 0 && seg->thread_id == 0, "C01: nothing of the released segment stays reachable from the span queues");
+  CHECK(STLD.reclaim_count == 0 && STLD.count == 0 && STLD.current_size == 0, "segment accounting returns to zero");
+  WITNESS("released");
+#else
+  CHECK(n_arena_free == 0, "C11: a segment with a page in use is not released");
+  CHECK(page_same(other, freeA ? &SNAPB : &SNAPA), "C01: the page still in use is untouched");
+  CHECK(seg->used == 1, "used count decremented");
+#if ABND
+  {
+    CHECK(n_mark_abandoned == 1 && seg->thread_id == 0 && seg->abandoned_visits == 1, "C09: when only abandoned pages remain the segment is published as abandoned exactly once");
+    CHECK(total_queued() == 0, "C09: the free spans of an abandoned segment are in no thread's span queue");
+    CHECK(STLD.reclaim_count == 0 && STLD.count == 0, "segment accounting");
+    WITNESS("abandoned");
+  }
+#else
+  {
+    CHECK(n_mark_abandoned == 0 && seg->thread_id == 0x77, "an owned segment stays owned");
+    CHECK(total_queued() == 1, "exactly one (coalesced) free span is queued");
+    WITNESS("kept");
+  }
+#endif
+  if (freeA) CHECK(sl[1].slice_count == 6 && sl[1].block_size == 0 && sl[6].slice_offset == 5 * sizeof(mi_slice_t), "freed span coalesced with its right neighbour");
+  else       CHECK(sl[3].slice_count == 5 && sl[3].block_size == 0 && sl[7].slice_offset == 4 * sizeof(mi_slice_t), "freed span coalesced with its left neighbour");
+#endif
+}
+#endif
+
+#if defined(HARNESS_h_segment_reclaim) || defined(HARNESS_h_seg_reclaim_full)
 /* C09/C08: mi_segment_reclaim on a concrete slice layout (info slice, page of 1 slice, page of 2 slices; page fields
    symbolic): ownership is taken, every used page is re-associated with a heap of the caller and delayed freeing is
    re-enabled, all-free pages are cleared, an empty segment is freed exactly once */
-static mi_segment_t RSEG;          /* header only: the data area is never touched by the reclaim logic */
 static mi_heap_t TH; static mi_tld_t TT; static mi_stats_t TS;
-static int n_page_reclaim, n_page_clear, n_seg_free2, n_coalesce; static mi_page_t* reclaimed_pg[2];
+static int n_page_reclaim; static mi_page_t* reclaimed_pg[2];
 mi_heap_t* _mi_heap_by_tag(mi_heap_t* heap, uint8_t tag) { return &TH; }
 void _mi_page_reclaim(mi_heap_t* heap, mi_page_t* page) { CHECK(heap == &TH, "pages are reclaimed into a heap of the calling thread"); if (n_page_reclaim < 2) reclaimed_pg[n_page_reclaim] = page; n_page_reclaim++; }
 void _mi_page_free_collect(mi_page_t* page, bool force) { }
-mi_slice_t* stub_page_clear(mi_page_t* page, mi_segments_tld_t* tld) { n_page_clear++; RSEG.used--; return (mi_slice_t*)page; }
-mi_slice_t* stub_span_free_coalesce(mi_slice_t* slice, mi_segments_tld_t* tld) { n_coalesce++; return slice; }
-void stub_segment_free(mi_segment_t* segment, bool force, mi_segments_tld_t* tld) { n_seg_free2++; }
 void _mi_page_use_delayed_free(mi_page_t* page, mi_delayed_t delay, bool override_never) {     /* sequential model of the flag update (the real CAS loop is decided in C02/C10) */
   uintptr_t t = page->xthread_free; uintptr_t old = t & 3;
   if (old == MI_NEVER_DELAYED_FREE && !override_never) return;
   page->xthread_free = (t & ~(uintptr_t)3) | (uintptr_t)delay;
 }
 mi_threadid_t _mi_thread_id(void) mi_attr_noexcept { return 0x4242; }
+#endif
+
+#ifdef HARNESS_h_seg_reclaim_full
+/* C09/C01/C11: mi_segment_reclaim with the real span functions on the 8-slice layout in its abandoned form (owner id 0, the
+   free span in no queue); AUSED/BUSED (concrete) say whether page A / B still has live blocks. */
+void h_seg_reclaim_full(void) {
+  make_layout(true);
+  mi_segment_t* seg = &S.seg; mi_slice_t* sl = seg->slices;
+  opt_delay = -1; opt_extend = 1;     /* purge scheduling off here (decided by page_free_full / C13 lemmas) */
+  mi_span_queue_for(4, &STLD)->first = mi_span_queue_for(4, &STLD)->last = NULL;        /* abandoned: free spans are in no queue */
+  seg->thread_id = 0; seg->abandoned = 2; seg->abandoned_visits = 1 + (nd_u8() & 3); seg->subproc = NULL;
+  TH.tld = &TT; TT.segments.subproc = NULL; STLD.subproc = NULL; STLD.count = 0; STLD.current_size = 0; STLD.reclaim_count = 0;
+  mi_page_t* A = (mi_page_t*)&sl[1]; mi_page_t* B = (mi_page_t*)&sl[7];
+  A->used = AUSED ? 2 : 0; B->used = BUSED ? 3 : 0;     /* concrete so that the walk over the slice map stays concrete (symbolic counts: C09.segment_reclaim) */
+  A->is_committed = B->is_committed = 1; A->xthread_free = B->xthread_free = MI_NEVER_DELAYED_FREE; A->xheap = B->xheap = 0; A->heap_tag = B->heap_tag = 0;
+  reset_lo = 0; reset_hi = 8 * MI_SEGMENT_SLICE_SIZE;
+  bool right = false;
+  mi_segment_t* r = mi_segment_reclaim(seg, &TH, 2 * MI_SEGMENT_SLICE_SIZE, &right, &STLD);
+  CHECK(seg->abandoned == 0, "no page stays abandoned");
+  CHECK(mask_subset(&seg->commit_mask, &os_committed), "commit mask truthful");
+  CHECK((purged.mask[0] & (0x01 | (AUSED ? 0x06 : 0) | (BUSED ? 0x80 : 0))) == 0, "C13: purging during adoption never touches a page with live blocks");
+#if AUSED || BUSED
+  CHECK(r == seg && seg->thread_id == _mi_thread_id() && n_arena_free == 0, "C09: the adopting thread owns the segment; it is not released while a page has live blocks");
+  CHECK(seg->used == AUSED + BUSED && n_page_reclaim == AUSED + BUSED, "C09: exactly the pages with live blocks are put into the adopter's heap");
+  CHECK(STLD.count == 1 && STLD.reclaim_count == 1 && seg->was_reclaimed, "segment accounting");
+#if AUSED
+  CHECK((mi_heap_t*)A->xheap == &TH && (A->xthread_free & 3) == MI_USE_DELAYED_FREE && A->slice_count == 2 && A->block_size == 2 * MI_SEGMENT_SLICE_SIZE, "C09/C08: page A adopted with delayed freeing re-enabled");
+#endif
+#if BUSED
+  CHECK((mi_heap_t*)B->xheap == &TH && (B->xthread_free & 3) == MI_USE_DELAYED_FREE && B->slice_count == 1 && B->block_size == MI_SEGMENT_SLICE_SIZE, "C09/C08: page B adopted with delayed freeing re-enabled");
+#endif
+  /* free space: one coalesced span, queued exactly once by its size */
+  { mi_slice_t* q = NULL; const size_t start = AUSED ? 3 : 1; const size_t cnt = (AUSED ? 4 : 6) + (BUSED ? 0 : 1);
+    CHECK(total_queued() == 1 && queue_len(mi_span_queue_for(cnt, &STLD), &q) == 1 && q == &sl[start], "C01/C09: the free space of an adopted segment is queued exactly once, as one coalesced span");
+    CHECK(sl[start].slice_count == cnt && sl[start].block_size == 0 && sl[start + cnt - 1].slice_offset == (cnt - 1) * sizeof(mi_slice_t), "span boundaries consistent"); }
+  WITNESS("kept");
+#else
+  CHECK(r == NULL && n_arena_free == 1 && af_size == 8 * MI_SEGMENT_SLICE_SIZE, "C09/C11: a segment whose last block was freed while abandoned is released exactly once");
+  CHECK(total_queued() == 0, "C01: nothing of the released segment stays in a span queue");
+  CHECK(n_page_reclaim == 0 && STLD.count == 0 && STLD.reclaim_count == 0, "accounting");
+  WITNESS("released");
+#endif
+}
+#endif
+
+#ifdef HARNESS_h_segment_reclaim
+static mi_segment_t RSEG;          /* header only: the data area is never touched by the reclaim logic */
+static int n_page_clear, n_seg_free2, n_coalesce;
+mi_slice_t* stub_page_clear(mi_page_t* page, mi_segments_tld_t* tld) { n_page_clear++; RSEG.used--; return (mi_slice_t*)page; }
+mi_slice_t* stub_span_free_coalesce(mi_slice_t* slice, mi_segments_tld_t* tld) { n_coalesce++; return slice; }
+void stub_segment_free(mi_segment_t* segment, bool force, mi_segments_tld_t* tld) { n_seg_free2++; }
 void h_segment_reclaim(void) {
   mi_segment_t* seg = &RSEG;
   seg->slice_entries = 4; seg->segment_slices = 4; seg->segment_info_slices = 1; seg->kind = MI_SEGMENT_NORMAL;
